@@ -662,8 +662,13 @@ func body(c *vk.Ctx) {
 			if e.worker != nil {
 				w = e.worker()
 			}
-			class := h.exec(e, w, rf.Case.Seed, kind, rf.Case.Label, data, newWctx())
-			c.Note("replay %+v: %d bytes -> %s", rf.Case, len(data), class)
+			// delivered twice to one worker: in the enumeration a worker (its ACL list, key storage, ...) serves many
+			// cases, and a violation that needs what an earlier delivery of the same input left behind shows on the
+			// second delivery only
+			wc := newWctx()
+			class := h.exec(e, w, rf.Case.Seed, kind, rf.Case.Label, data, wc)
+			class2 := h.exec(e, w, rf.Case.Seed, kind, rf.Case.Label, data, wc)
+			c.Note("replay %+v: %d bytes -> %s, delivered again -> %s", rf.Case, len(data), class, class2)
 			h.report()
 			return
 		}
